@@ -319,6 +319,11 @@ class Blockwise(ArrayExpr):
                 self.new_axes,
                 self.align_arrays,
                 self.concatenate,
+                # The key prefix is part of this node's keys, so it is part of
+                # what a parent refers to: two nodes that differ only in their
+                # user-given name/token must not look identical to their parents.
+                self.operand("name") if "name" in self._parameters else None,
+                self.operand("token") if "token" in self._parameters else None,
                 *args_token,
                 **kwargs_token,
             )
